@@ -1,7 +1,7 @@
 SPECIFICATION Spec
 CONSTANTS
-  Classes = {"formatted", "unformatted", "unparseable", "missing", "unreadable", "readonly", "verifyfail", "crash", "nonutf8", "crlf"}
-  Locs = {"arg", "dir"}
+  Classes = {"formatted", "unformatted", "unparseable", "missing", "unreadable", "readonly", "verifyfail", "crash", "nonutf8", "crlf", "empty", "nonl"}
+  Locs = {"arg", "dir", "both"}
   MaxFiles = 2
   Modes = {"check", "write"}
   Formats = {"standard", "unified", "json", "summary"}
